@@ -288,9 +288,7 @@ func c16Property(t *rapid.T, st *Stats) {
 	if rapid.Bool().Draw(t, "withReserved") {
 		rn := rapid.SampledFrom(c16Reserved).Draw(t, "reservedName")
 		names = append(names, rn)
-		if storeKind == "dir" {
-			s.reserved[rn] = true
-		}
+		s.reserved[rn] = true // both stores refuse them when there is a directory underneath
 	}
 	e.repoPool = names
 	e.logf("store=%s repos=%v", storeKind, names)
